@@ -148,7 +148,7 @@ func holes(t *Term, metas map[string]string) *Term {
 	case "FieldList":
 		// Opening, List, Closing.  "func(..., b int)" parses the placeholder as one more
 		// name of the field b: split such fields into the elision and the remaining names.
-		var out []*Term
+		out := []*Term{}
 		for _, f := range t.S[1].V {
 			if f.K != "Field" || len(f.S[0].V) < 2 {
 				out = append(out, f)
